@@ -103,7 +103,7 @@ func (s *CollapsingLowestDenseStore) adjust(newMinIndex, newMaxIndex int) {
 	if newMaxIndex-newMinIndex+1 > len(s.bins) {
 		// The range of indices is too wide, buckets of lowest indices need to be collapsed.
 		newMinIndex = newMaxIndex - len(s.bins) + 1
-		if newMinIndex >= s.maxIndex {
+		if newMinIndex >= s.maxIndex || s.IsEmpty() {
 			// There will be only one non-empty bucket.
 			s.bins = make([]float64, len(s.bins))
 			s.offset = newMinIndex
